@@ -76,6 +76,11 @@ TOPOLOGIES = {
     'chain2mixed': (['Zeta', 'alpha'],
                     [('Zeta', 'alpha', 'B_za'), ('alpha', None, 'ksum')],
                     {'ksum': ['k_e', 'B_za']}, {'Total': ['Zeta', 'alpha']}),
+    # a compartment that is itself called 'dose' (the name chi gives to the depot of
+    # an indirect route, which then has to get another name)
+    'chain2dose': (['dose', 'alpha'],
+                   [('dose', 'alpha', 'b_da'), ('alpha', None, 'ksum')],
+                   {'ksum': ['k_e', 'b_da']}, {'total': ['dose', 'alpha']}),
     'mam2': (['mid', 'beta'],
              [('mid', 'beta', 'q_mb'), ('beta', 'mid', 'a_bm'), ('mid', None, 'k_e')],
              {}, {'total': ['mid', 'beta']}),
